@@ -684,7 +684,7 @@ package gorm
 //@ # Begin stores what BeginTx returned even when it failed: a typed-nil transaction. Rollback (the documented manual
 //@ # pattern `tx := db.Begin(); defer tx.Rollback()`) must not call into it.
 //@ site no-rollback-through-a-nil-transaction
-//@   match invoke TxCommitter.Rollback
-//@   in gorm.(*DB).Rollback
-//@   min-sites 1
+//@   match invoke TxCommitter.Rollback | invoke TxCommitter.Commit
+//@   in gorm.(*DB).Rollback gorm.(*DB).Commit
+//@   min-sites 2
 //@   assert transaction-object-exists: uf("payloadRef", boxof(recv)) != 0 [C04]
